@@ -383,7 +383,7 @@ func TestC12(t *testing.T) {
 	defer h.Finish()
 	for _, mode := range []string{"parse", "validate"} {
 		cfg := model.DefaultCfg(mode)
-		cfg.PostBehaviours = []string{"record", "mutate", "record", "error", "issue", "mutate"}
+		cfg.PostBehaviours = []string{"record", "mutate", "record", "error", "issue", "mutate", "wrapped"}
 		cfg.PPost, cfg.PPre, cfg.POpts = 0.3, 0.1, 0
 		cfg.PVary, cfg.PAbsent, cfg.PJunk, cfg.PTestSat, cfg.PClean = 0.2, 0.1, 0.04, 0.9, 0.4
 		if h.Thorough() {
